@@ -60,7 +60,7 @@ FINDINGS = [
     ("C16", "C16/Images.interpolate/fft-same-grid-identity", "case.get('target') == 'same_sampling'",
      "Images.interpolate(sampling=image.sampling) changes the grid when extent/sampling is 6.000000000000001 (ceil); the repair conflicts with an existing test that encodes ceil(l/d), so it is recorded, not fixed"),
     # C18 -------------------------------------------------------------------------------------------------
-    ("C18", "C18/no-exception", "case.get('kind') == 'validate' and 'Object cannot be automatically chunked' in detail",
+    ("C18", "C18/no-exception", "case.get('kind') in ('validate', 'shape') and 'Object cannot be automatically chunked' in detail and 'although a valid chunking exists' in detail",
      "_auto_chunks raises 'Object cannot be automatically chunked' although a valid chunking exists when an explicit int chunk exceeds its dimension next to a size-1 'auto' dimension (current_chunks not clamped)"),
     # C19 -------------------------------------------------------------------------------------------------
     ("C19", "C19/axes/linear-coordinates-reassemble", "case.get('kind') in ('images', 'waves')",
@@ -102,7 +102,9 @@ FINDINGS = [
     ("C29", "C29/no-exception", "case.get('op') == 'reduce' and case.get('keepdims') and 'number of values for ordinal axis' in detail",
      "reductions with keepdims=True over an ordinal axis raise (n-valued axis entry kept for a length-1 dimension)"),
     ("C29", "C29/no-exception", "case.get('op') == 'getitem' and (case.get('has_none') or case.get('has_adv')) and any(m in detail for m in "
-     "('only 0-dimensional arrays can be converted', 'Too many indices for potential array'))",
+     "('only 0-dimensional arrays can be converted', 'Too many indices for potential array', 'number of values for ordinal axis', "
+     "'boolean index did not match', 'Boolean array with size', 'is out of bounds for axis', 'can only concatenate tuple', "
+     "\"unsupported operand type(s) for +: 'slice' and 'int'\"))",
      "indexing PotentialArray / IndexedDiffractionPatterns / eager adv_mixed with None or lists raises"),
     # C31 -------------------------------------------------------------------------------------------------
     ("C31", "C31/poisson_noise/lazy-equals-eager-any-chunking", "True",
@@ -117,7 +119,7 @@ FINDINGS = [
     ("C37", "C37/laplace/eigenvalue", "case.get('isotropic') is False",
      "finite-difference Laplacian uses prefactor 1/prod(sampling) and the same coefficients along x and y: wrong operator for anisotropic sampling"),
     # C38 -------------------------------------------------------------------------------------------------
-    ("C38", "C38/no-exception", "case.get('fft', 'fftw') == 'fftw' and (case.get('input') in ('view', 'dask') or case.get('transform') == 'member_in_place') and 'Invalid input alignment' in detail",
+    ("C38", "C38/no-exception", "(case.get('fft', 'fftw') == 'fftw' or case.get('history') == 'other_backend') and (case.get('input') in ('view', 'dask') or case.get('transform') == 'member_in_place') and 'Invalid input alignment' in detail",
      "FFTW objects are planned on an aligned dummy and updated with the caller's array: 'Invalid input alignment' for 8-byte-aligned views (numpy backend fine)"),
     ("C38", "C38/simulation/backend-independent", "case.get('pipeline') == 'prism' and case.get('precision') == 'float64'",
      "PRISM ignores the precision setting (S-matrix hard-coded complex64), so float64 runs are only single-accurate and backends differ by 1e-7"),
